@@ -443,6 +443,19 @@ def resolved (par : Parent α) (s : DD α) : Bool :=
   let raw := (eqPropRaw par s).2
   listEqB (adjust s.dom s.prec raw) raw && separated s.prec raw
 
+/-- no mean-valued class fell back to the midpoint of its bounds (cpp:375, 385: "may happen if the
+two bounds are undistinguishable").  Under `H` in exact arithmetic the fallback never triggers
+(`meanValue_mem`); in doubles it does when the quantile's error is not small against the class
+width, and the discrete mean is then not the parent's mean. -/
+def noMeanFallback (par : Parent α) (s : DD α) : Bool :=
+  let minX := par.P s.dom.lo
+  let maxX := par.P s.dom.hi
+  Scalar.eqb maxX minX || s.median ||
+    (let ec := (maxX - minX) / nat s.n
+     (pairs (s.dom.lo :: eqPropBounds par s.n s.dom.lo s.dom.hi minX ec ++ [s.dom.hi])).all (fun fs =>
+       let v := (par.E fs.2 - par.E fs.1) / ec
+       Scalar.geb v fs.1 && Scalar.leb v fs.2))
+
 /-- the medians of the non-degenerate branch are rescaled (condition of `rescale`) -/
 def rescaledB (par : Parent α) (s : DD α) : Bool :=
   let minX := par.P s.dom.lo
